@@ -476,6 +476,15 @@ def _check_use(ctx, m, guard, gname, gmode, gcalls, use_node, name_arg, text, mo
                                'before a protected one would already be removed' if not ok else mode_why))
             return
         ok = must_precede(m, use_node, [gnode])
+        # all-or-nothing for list-taking methods: a use inside the loop that also checks means that names before
+        # a protected one are already modified when the refusal comes
+        shared = [p for p, _ in enclosing(m.node, gnode) if isinstance(p, (ast.For, ast.While)) and
+                  any(q is p for q, _ in enclosing(m.node, use_node))]
+        if shared:
+            ctx.bad('R-DOM', 'D1', m, use_node, construct, inst + ' (and a refused call changes nothing)',
+                    detail='guard and use sit in the same loop over the names: the names before a protected one are '
+                           'already deleted/modified when OSError is raised (the refused call is not all-or-nothing)')
+            return
         ctx.decide(ok and mode_ok, 'R-DOM', 'D1', m, use_node, construct, inst,
                    detail=('a path reaches the use without passing the guard' if not ok else mode_why))
         return
